@@ -235,6 +235,13 @@ def check():
                 results.append((x.pc, abstract_self(ex.export(x.state, x.ret))))
             elif x.kind == "unreachable":
                 continue
+            elif x.kind == "backedge":
+                # a loop inside into_openapi: what an iteration writes is havocked at the loop head, so the paths that
+                # return afterwards carry an arbitrary value in every field a loop can touch - the frame queries then
+                # fail for exactly those fields
+                o.extra.setdefault("loops_in_into_openapi", 0)
+                o.extra["loops_in_into_openapi"] += 1
+                continue
             else:
                 results.append((x.pc, None))
         return results
@@ -434,6 +441,11 @@ PROGRAM_URIS = ("let item = /items/{ 'id int };\nlet @page = { 'first item, 'tag
                 "res item on get -> <{ 'self item, 'next /items/{ 'id int }?{ 'after str } }>;\nres /pages on get -> <@page>;\n")
 
 
+PROGRAM_ANNOTATED = ("let item = { 'id! int, 'name str };\n# summary: \"list items\", tags: [inventory, internal], operationId: \"list-items\"\nlet list = get -> <[item]>;\n"
+                     "# summary: \"read one item\", tags: [inventory, base-tag], description: \"d\"\nlet read = get -> <item>;\n"
+                     "res /items on list;\nres /items/{ 'id int } on read;\n")
+
+
 def base_variants():
     """(name, yaml text): the full base, one without `components`, one whose components has no `schemas`."""
     full = BASE_YAML
@@ -458,12 +470,30 @@ def real_cli_roundtrip(o):
         f.write("#!/bin/sh\ncd /verif && exec ./check C14 --replay %s\n" % rdir)
     diffs = []
     n = 0
-    for pname, prog in (("refs", PROGRAM), ("norefs", PROGRAM_NOREFS), ("uris", PROGRAM_URIS)):
-        res2 = run_cli(cli, {"main.oal": prog}, workdir=os.path.join(rdir, pname + "-nobase"))
+    progs = [("refs", {"main.oal": PROGRAM}, None), ("norefs", {"main.oal": PROGRAM_NOREFS}, None), ("uris", {"main.oal": PROGRAM_URIS}, None),
+             ("annotated", {"main.oal": PROGRAM_ANNOTATED}, None)]
+    try:
+        import pool
+        # every accepted program the checks know, against the full base
+        progs += [("pool-" + k.replace("/", "-"), files, ("full",)) for k, files in sorted(pool.programs().items())]
+    except Exception:
+        pass
+    for pname, files0, only in progs:
+        res2 = run_cli(cli, files0, workdir=os.path.join(rdir, pname + "-nobase"))
+        if only and res2["rc"] != 0:
+            continue                  # not accepted on this tree: nothing to compare
+        if res2["rc"] != 0:
+            diffs.append("%s: <oal-cli rejects the program without a base rc=%s>" % (pname, res2["rc"]))
+            continue
         nob = mirlib.yaml_to_obj(res2["target"]) if res2["target"] else {}
         for bname, btext in base_variants():
+            if only and bname not in only:
+                continue
             tag = "%s/%s" % (pname, bname)
-            res = run_cli(cli, {"main.oal": prog, "base.yaml": btext}, base="base.yaml", workdir=os.path.join(rdir, pname + "-" + bname))
+            # generated component names hash the module's locator: compile with and without the base in the same directory
+            res2 = run_cli(cli, files0, workdir=os.path.join(rdir, pname + "-" + bname))
+            nob = mirlib.yaml_to_obj(res2["target"]) if res2["target"] else {}
+            res = run_cli(cli, dict(files0, **{"base.yaml": btext}), base="base.yaml", workdir=os.path.join(rdir, pname + "-" + bname))
             n += 1
             if res["rc"] != 0 or not res["target"]:
                 diffs.append("%s: <oal-cli failed rc=%s>" % (tag, res["rc"]))
